@@ -299,6 +299,38 @@ Definition twkb_parse_idlist_refused : list (string) :=
 Definition twkb_parse_extprec_ops : list (string * Z) :=
   [("&", 1%Z); (">>", 2%Z); ("&", 7%Z); ("&", 2%Z); (">>", 5%Z); ("&", 7%Z)].
 
+(* geom: methods of twkbParser, every call recv.checkCount(_, E): (method, the field E mentions or the empty string, the integer E adds), source order *)
+Definition twkb_parse_count_guards : list (string * string * Z) :=
+  [
+    ("nextMultiPoint", "dimensions", 0%Z);
+    ("nextMultiLineString", "", 1%Z);
+    ("nextMultiPolygon", "", 1%Z);
+    ("nextGeometryCollection", "", 2%Z);
+    ("parsePointCountAndArray", "dimensions", 0%Z);
+    ("parseIDList", "", 1%Z)
+  ].
+
+(* geom/twkb_parser.go:twkbParser.checkCount: parameter types; locals v0.. := expr; if lhs op rhs { return then }; return else *)
+Definition twkb_parse_check_count_shape : list (string * string) :=
+  [
+    ("params", "uint64,int");
+    ("v0", "uint64(len(recv.twkb)-recv.pos)");
+    ("lhs", "p0");
+    ("op", ">");
+    ("rhs", "v0/uint64(p1)");
+    ("then", "error");
+    ("else", "nil")
+  ].
+
+(* geom/twkb_parser.go:newTWKBParser (literal) and geom/twkb_parser.go:twkbParser.parseExtendedPrecision (tagless switch): (condition, ctype, dimensions) *)
+Definition twkb_parse_dimensions : list (string * string * Z) :=
+  [
+    ("", "DimXY", 2%Z);
+    ("recv.hasZ&&recv.hasM", "DimXYZM", 4%Z);
+    ("recv.hasZ", "DimXYZ", 3%Z);
+    ("recv.hasM", "DimXYM", 3%Z)
+  ].
+
 (* ==================== DE-9IM (coq/Model/RelatePatterns.v, coq/Model/Relate.v) *)
 
 (* geom/alg_relate.go: every function calling relateMatchesAnyPattern, with its pattern literals, source order *)
@@ -433,4 +465,4 @@ Definition rtree_lcg_shift : option Z :=
 Definition rtree_qp_small_cases : list (Z) :=
   [1%Z; 2%Z].
 
-(* 64 tables, 0 not found *)
+(* 67 tables, 0 not found *)
